@@ -4,7 +4,7 @@ use vespertide_core::{ColumnDef, TableDef};
 
 use super::helpers::{
     build_sea_column_def_with_table, build_sqlite_temp_table_create, normalize_enum_default,
-    recreate_indexes_after_rebuild,
+    recreate_indexes_after_rebuild, restate_mysql_column_attributes,
 };
 use super::rename_table::build_rename_table;
 use super::types::{BuiltQuery, DatabaseBackend, RawSql};
@@ -74,7 +74,8 @@ pub fn build_modify_column_default(
                 ..column_def.clone()
             };
 
-            let sea_col = build_sea_column_def_with_table(backend, table, &modified_col_def);
+            let mut sea_col = build_sea_column_def_with_table(backend, table, &modified_col_def);
+            restate_mysql_column_attributes(&mut sea_col, table_def, &modified_col_def);
 
             let stmt = Table::alter()
                 .table(Alias::new(table))
